@@ -29,7 +29,12 @@ def gen(rnd):
         vel = [vel[0]] * nlay
     X = rnd.choice([0.5, 1.0, 2.0, 3.5, 6.0, 10.0])
     angle = rnd.choice([rnd.uniform(0.5, 89.5), rnd.uniform(1, 30), rnd.uniform(60, 89.9), 45.0, 30.0])
-    return {"interfaces": [float(v) for v in inter], "velocities": vel, "X": X, "angle": angle, "trace_layers": rnd.random() < 0.5}
+    dtype = "float"
+    if rnd.random() < 0.2:
+        # a velocity model given in whole units (e.g. m/s) as an integer array
+        vel = [float(rnd.choice([1, 2, 3, 4])) for _ in range(nlay)]
+        dtype = "int"
+    return {"interfaces": [float(v) for v in inter], "velocities": vel, "X": X, "angle": angle, "trace_layers": rnd.random() < 0.5, "velocity_dtype": dtype}
 
 
 def run_impl(c):
@@ -37,7 +42,7 @@ def run_impl(c):
     import hmclab
     L = sys.modules["hmclab.Distributions.LayeredRayTracing2D"]
     inter = numpy.array(c["interfaces"])
-    vel = numpy.array(c["velocities"])
+    vel = numpy.array(c["velocities"], dtype=(int if c.get("velocity_dtype") == "int" else float))
     rz = numpy.array([0.5 * c["interfaces"][-1]])
     with contextlib.redirect_stdout(io.StringIO()), numpy.errstate(all="ignore"):
         res = L._tracerays(inter, vel, numpy.array([0, 0]), c["X"], rz, c["angle"], maxnumiterations=inter.size * 3,
